@@ -2,7 +2,8 @@
 from verif import *
 from props.routers import *
 
-THEOREMS = ['c09_pubsub_no_sleep_on_undone_work', 'c09_pubsub_never_parks_unarmed', 'c09_reqrep_never_parks_unarmed', 'c09_pubsub_parks_only_when_drained', 'c09_reqrep_parks_only_when_drained']
+THEOREMS = ['c09_pubsub_no_sleep_on_undone_work', 'c09_pubsub_never_parks_unarmed', 'c09_reqrep_never_parks_unarmed', 'c09_pubsub_parks_only_when_drained', 'c09_reqrep_parks_only_when_drained',
+            'c09_pubsub_work_bounded', 'c09_reqrep_work_bounded', 'c09_pubsub_never_spins', 'c09_reqrep_never_spins']
 
 
 def run(tier, seed, replay=None):
